@@ -809,6 +809,12 @@ class BaseBackend(CodeGen):
         from scipy.integrate import solve_ivp
         kwargs['t_eval'] = times
 
+        # the generated vector field writes into and returns one shared buffer, whereas scipy's integrators keep
+        # references to returned derivatives (e.g. DOP853 dense output reads `self.f` after further calls):
+        # hand scipy a fresh array per call
+        def fun(t, y_, *fargs):
+            return np.array(func(t, y_, *fargs), copy=True)
+
         # call scipy solver
-        results = solve_ivp(fun=func, t_span=(t0, T), y0=y, first_step=dt, args=args, **kwargs)
+        results = solve_ivp(fun=fun, t_span=(t0, T), y0=y, first_step=dt, args=args, **kwargs)
         return results['y'].T
